@@ -5,6 +5,7 @@
 set -u
 here="$(cd "$(dirname "${BASH_SOURCE[0]}")/.." && pwd)"
 patch="$1"; id="$2"; shift 2
+if [[ "$patch" != revert:* ]]; then patch="$(realpath "$patch")"; fi
 tmp=$(mktemp -d /var/tmp/vp_mut_XXXXXX)
 trap 'rm -rf "$tmp"' EXIT
 rsync -a --exclude .git --exclude '__pycache__' --exclude docs --exclude examples /repo/ "$tmp/"
